@@ -38,6 +38,11 @@ PROGRAMS = [
     ("return-dec17", "return 0.30000000000000004;"),
     ("return-str", 'return "text";'),
     ("return-empty-str", 'return "";'),
+    # text is data, never a format
+    ("return-str-percent", 'return "25%";'),
+    ("return-str-format", 'print "100%"; return "%s %d %% %5$x %n";'),
+    ("return-tuple-format", 'put "%d"; return tup("%s%s", 1);'),
+    ("return-str-backslash", 'return "a\\nb\\\\%c";'),
     ("return-tuple", 'return tup(1, "a", 2.5);'),
     ("return-complex", "return 1 + 2 * ii;"),
     ("return-null", "return null;"),
@@ -89,7 +94,7 @@ def tb(text):
     return text if isinstance(text, bytes) else text.encode("utf-8")
 
 EXPRS = ["1 + 2", '"a" + "b"', "2.5 * 2", "1 < 2", "null", "tup(1, \"x\")", "1 + 2 * ii", "1 / 0", "1 +", "nosuch", "tab(2, 1)", 'raw("x")', "int()",
-         "9223372036854775807 + 1", 'upper("abc")', "3 ** 39"]
+         "9223372036854775807 + 1", 'upper("abc")', "3 ** 39", '"50%"', '"%s%d%n"', '"%%"+"%5$s"', 'tup("%s",1)']
 
 INTERACTIVE = [
     ("i-print", ['print "hello";', "a = 1 + 2;", "print a;"]),
@@ -343,6 +348,26 @@ def run(tier):
             col.viol("reference:%s" % name, "%s: the in-process reference run gave %s" % (where, step), det)
         if mode == "out" and other:
             col.viol("out-routing:%s" % name, "%s: standard output %r although --out selects a file" % (where, other[:200]), det)
+    # $ARG holds every word after the program operand, in order - also words equal to the operand itself or to each other
+    ptext = 'print $ARG.count(); forall a in $ARG loop print "[" a "]"; end loop;'
+    ppath = os.path.join(d, "pa.bloc")
+    with open(ppath, "wb") as f:
+        f.write(tb(ptext))
+    pjobs, pmeta = [], []
+    for mode, operand in (("file", ppath), ("stdin", "-"), ("file-relative", "pa.bloc")):
+        vocab = [operand, "a", os.path.basename(ppath), "-"]
+        vecs = [v for l in (1, 2, 3) for v in itertools.product(vocab, repeat=l) if operand in v or len(set(v)) < len(v)]
+        for v in vecs:
+            pjobs.append((exe, env, [operand] + list(v), tb(ptext) if mode == "stdin" else None, None))
+            pmeta.append((mode, operand, v))
+    with concurrent.futures.ThreadPoolExecutor(max_workers=NWORK) as ex:
+        pres = list(ex.map(run_cli, pjobs))
+    for (mode, operand, v), (rc, out, err, _) in zip(pmeta, pres):
+        want = ("%d\n" % len(v) + "".join("[%s]\n" % a for a in v)).encode()
+        col.count(("arg-repeat", mode, len(v), rc, out == want))
+        if rc != 0 or out != want:
+            col.viol("args:repeated-word:%s" % mode, "bloc %s %s: exit %s, $ARG printed as %r, expected %r" % (operand, " ".join(v), rc, out[:200], want),
+                     {"argv": [operand] + list(v), "stdout": out[:300].decode("latin-1"), "stderr": err[:300].decode("latin-1")})
     # -e expressions
     ecases = [Case("e%d" % i, [op_ctx(0, True), "expr 0 %s" % hx(e + " ;"), op_run("print %s;" % e), op_out(0)], {"e": e}) for i, e in enumerate(EXPRS)]
     eref = run_batch(ecases)
